@@ -200,3 +200,130 @@ func sortedMapRange(fn *ssa.Function) bool {
 	})
 	return ok
 }
+
+// sharedWrites lists the stores / map updates, reachable from fn through module callees, whose
+// target is not an object created inside the function performing the store. A view function
+// that performs such a write can change what a later (or earlier-ordered) query returns.
+func (c *Check) sharedWrites(fn *ssa.Function, boundary []string) ([]impurity, []string) {
+	seen := map[*ssa.Function]bool{}
+	var out []impurity
+	var visited []string
+	cha := c.W.CHA()
+	var fresh func(v ssa.Value, depth int) bool
+	fresh = func(v ssa.Value, depth int) bool {
+		if depth > 8 {
+			return false
+		}
+		switch x := v.(type) {
+		case *ssa.Alloc, *ssa.MakeSlice, *ssa.MakeMap, *ssa.MakeChan, *ssa.MakeClosure:
+			return true
+		case *ssa.Slice:
+			return fresh(x.X, depth+1)
+		case *ssa.Phi:
+			for _, e := range x.Edges {
+				if e == v {
+					continue
+				}
+				if k, ok := e.(*ssa.Const); ok && k.IsNil() {
+					continue
+				}
+				if !fresh(e, depth+1) {
+					return false
+				}
+			}
+			return true
+		case *ssa.Call:
+			if calleeName(&x.Call) == "builtin:append" {
+				// append(fresh-or-nil, ...) yields storage not shared with the inputs of the view
+				return fresh(x.Call.Args[0], depth+1)
+			}
+		case *ssa.Const:
+			return x.IsNil()
+		case *ssa.UnOp:
+			// load of a local variable holding only fresh values
+			if a, ok := x.X.(*ssa.Alloc); ok && x.Op == token.MUL {
+				for _, sv := range storesTo(a) {
+					if !fresh(sv, depth+1) {
+						return false
+					}
+				}
+				return true
+			}
+		}
+		return false
+	}
+	var walk func(f *ssa.Function)
+	walk = func(f *ssa.Function) {
+		if f == nil || seen[f] || !inModule(f) || len(f.Blocks) == 0 {
+			return
+		}
+		seen[f] = true
+		name := shortName(f)
+		visited = append(visited, name)
+		eachInstr(f, func(b *ssa.BasicBlock, ins ssa.Instruction) {
+			c.Sites++
+			switch x := ins.(type) {
+			case *ssa.Store:
+				r, p := accessPath(x.Addr)
+				if !fresh(r, 0) {
+					out = append(out, impurity{name, "store to " + exprTextSafe(f, r) + "." + strings.Join(p, "."), instrPos(c.W, ins)})
+				}
+			case *ssa.MapUpdate:
+				r, p := accessPath(x.Map)
+				if !fresh(r, 0) {
+					out = append(out, impurity{name, "map update of " + exprTextSafe(f, r) + "." + strings.Join(p, "."), instrPos(c.W, ins)})
+				}
+			}
+			ci, ok := ins.(ssa.CallInstruction)
+			if !ok {
+				return
+			}
+			cn := calleeName(ci.Common())
+			for _, bnd := range boundary {
+				if strings.HasPrefix(cn, bnd) {
+					return
+				}
+			}
+			if sc := ci.Common().StaticCallee(); sc != nil {
+				walk(sc)
+				return
+			}
+			if mc, ok := ci.Common().Value.(*ssa.MakeClosure); ok {
+				walk(mc.Fn.(*ssa.Function))
+				return
+			}
+			if ci.Common().IsInvoke() {
+				if n := cha.Nodes[f]; n != nil {
+					for _, e := range n.Out {
+						if e.Site == ci {
+							walk(e.Callee.Func)
+						}
+					}
+				}
+			}
+		})
+		for _, an := range f.AnonFuncs {
+			walk(an)
+		}
+	}
+	walk(fn)
+	sort.Strings(visited)
+	return out, visited
+}
+
+func exprTextSafe(fn *ssa.Function, v ssa.Value) string {
+	defer func() { recover() }()
+	if v == nil {
+		return "?"
+	}
+	if p, ok := v.(*ssa.Parameter); ok {
+		return p.Name()
+	}
+	if g, ok := v.(*ssa.Global); ok {
+		return "global " + g.Name()
+	}
+	if fv, ok := v.(*ssa.FreeVar); ok {
+		return "captured " + fv.Name()
+	}
+	return v.Name() + ":" + typeShort(v.Type())
+}
